@@ -19,7 +19,8 @@ pub struct SCase {
 const KINDS: [&str; 7] = ["TypedImage(owned)", "TypedImage(slice, oversized)", "TypedImageRef", "TypedCroppedImage", "TypedCroppedImage(nested)", "TypedCroppedImageMut", "TypedCroppedImageMut(nested)"];
 
 fn tag(x: u32, y: u32) -> i32 {
-    (y * 1000 + x + 1) as i32
+    // identity tag in the low 20 bits (long views are 1 pixel thick, so x + y stays unique there)
+    if x >= 1000 || y >= 1000 { ((x + y + 1) & 0xfffff) as i32 } else { (y * 1000 + x + 1) as i32 }
 }
 
 struct Parent {
@@ -88,8 +89,19 @@ fn check_rect<V: ImageView<Pixel = I32>>(v: &V, x0: u32, y0: u32, w: u32, h: u32
     true
 }
 
-fn part_sizes(size: u32, parts: u32) -> Vec<u32> {
-    (0..parts).map(|i| size / parts + if i < size % parts { 1 } else { 0 }).collect()
+/// The property fixes the number, the order and the balance of the parts, not which of them are the bigger ones:
+/// every extent must be floor(size/parts) or ceil(size/parts) and they must add up to `size`.
+fn balanced(sizes: &[u32], size: u32, parts: u32) -> Result<(), String> {
+    let lo = size / parts;
+    let hi = lo + (size % parts != 0) as u32;
+    if let Some(s) = sizes.iter().find(|&&s| s != lo && s != hi) {
+        return Err(format!("a part of extent {} in a split of {} into {} (extents must be {} or {})", s, size, parts, lo, hi));
+    }
+    let sum: u64 = sizes.iter().map(|&s| s as u64).sum();
+    if sum != size as u64 {
+        return Err(format!("extents of the parts add up to {} instead of {}", sum, size));
+    }
+    Ok(())
 }
 
 macro_rules! check_split_result {
@@ -111,7 +123,10 @@ macro_rules! check_split_result {
                 } else if v.len() != $parts as usize {
                     $t.fail("part_count", format!("{} parts returned, {} requested", v.len(), $parts));
                 } else {
-                    let sizes = part_sizes($size, $parts);
+                    let sizes: Vec<u32> = v.iter().map(|p| if $by_height { p.height() } else { p.width() }).collect();
+                    if let Err(m) = balanced(&sizes, $size, $parts) {
+                        $t.fail("part_size", m);
+                    }
                     let mut off = $start;
                     for (i, $part) in v.iter().enumerate() {
                         let ($px, $py, $pw, $ph) = if $by_height { ($x0, $y0 + off, $w, sizes[i]) } else { ($x0 + off, $y0, sizes[i], $h) };
@@ -150,7 +165,10 @@ fn check_level2<V: ImageView<Pixel = I32>>(v: &V, x0: u32, y0: u32, w: u32, h: u
                         t.fail("unexpected_some", format!("split-of-split(start={}, size={}, parts={}) of extent {} returned Some", start, size, parts, extent));
                         continue;
                     }
-                    let sizes = part_sizes(size, parts);
+                    let sizes: Vec<u32> = ps.iter().map(|p| p.extent(by_height)).collect();
+                    if let Err(m) = balanced(&sizes, size, parts) {
+                        t.fail("part_size", m);
+                    }
                     let mut off = start;
                     for (i, p) in ps.iter().enumerate() {
                         let (px, py, pw, ph) = if by_height { (x0, y0 + off, w, sizes[i]) } else { (x0 + off, y0, sizes[i], h) };
@@ -168,8 +186,12 @@ fn check_level2<V: ImageView<Pixel = I32>>(v: &V, x0: u32, y0: u32, w: u32, h: u
 /// object-safe wrapper so that second-level parts of different concrete types can share code
 trait Probe {
     fn probe(&self, x0: u32, y0: u32, w: u32, h: u32, t: &mut Tally) -> bool;
+    fn extent(&self, by_height: bool) -> u32;
 }
 impl<V: ImageView<Pixel = I32>> Probe for V {
+    fn extent(&self, by_height: bool) -> u32 {
+        if by_height { self.height() } else { self.width() }
+    }
     fn probe(&self, x0: u32, y0: u32, w: u32, h: u32, t: &mut Tally) -> bool {
         check_rect(self, x0, y0, w, h, t)
     }
@@ -233,17 +255,20 @@ fn check_view_mut(c: &SCase, t: &mut Tally, interleave: bool) {
                                 t.fail("unexpected_none", format!("mutable split(start={}, size={}, parts={}) of extent {} returned None", start, size, parts, extent));
                             }
                         }
-                        Some(n) => {
+                        Some(sizes) => {
                             if !want {
                                 t.fail("unexpected_some", format!("mutable split(start={}, size={}, parts={}) of extent {} returned Some", start, size, parts, extent));
                                 continue;
                             }
-                            if n != parts as usize {
-                                t.fail("part_count", format!("{} mutable parts returned, {} requested", n, parts));
+                            if sizes.len() != parts as usize {
+                                t.fail("part_count", format!("{} mutable parts returned, {} requested", sizes.len(), parts));
+                                continue;
+                            }
+                            if let Err(m) = balanced(&sizes, size, parts) {
+                                t.fail("part_size", m);
                                 continue;
                             }
                             // exactly-once check through the parent
-                            let sizes = part_sizes(size, parts);
                             let owner = |off_in_band: u32| -> i32 {
                                 let mut acc = 0;
                                 for (i, s) in sizes.iter().enumerate() {
@@ -282,9 +307,9 @@ fn check_view_mut(c: &SCase, t: &mut Tally, interleave: bool) {
 }
 
 /// Split mutably, then add (index+1)<<20 to every pixel each part exposes. Returns the number of parts.
-fn write_parts<V: ImageViewMut<Pixel = I32>>(v: &mut V, by_height: bool, start: u32, size: u32, parts: u32, interleave: bool) -> Option<usize> {
-    fn write_all<T: ImageViewMut<Pixel = I32>>(mut ps: Vec<T>, interleave: bool) -> usize {
-        let n = ps.len();
+fn write_parts<V: ImageViewMut<Pixel = I32>>(v: &mut V, by_height: bool, start: u32, size: u32, parts: u32, interleave: bool) -> Option<Vec<u32>> {
+    fn write_all<T: ImageViewMut<Pixel = I32>>(mut ps: Vec<T>, interleave: bool, by_height: bool) -> Vec<u32> {
+        let n: Vec<u32> = ps.iter().map(|p| if by_height { p.height() } else { p.width() }).collect();
         if interleave {
             // sibling parts used alternately, row by row
             let mut its: Vec<_> = ps.iter_mut().map(|p| p.iter_rows_mut(0)).collect();
@@ -295,7 +320,7 @@ fn write_parts<V: ImageViewMut<Pixel = I32>>(v: &mut V, by_height: bool, start: 
                     if let Some(row) = it.next() {
                         live = true;
                         for p in row.iter_mut() {
-                            p.0 += (i as i32 + 1) << 20;
+                            p.0 = p.0.wrapping_add((i as i32 + 1).wrapping_shl(20));
                         }
                     }
                 }
@@ -304,7 +329,7 @@ fn write_parts<V: ImageViewMut<Pixel = I32>>(v: &mut V, by_height: bool, start: 
             for (i, p) in ps.iter_mut().enumerate().rev() {
                 for row in p.iter_rows_mut(0) {
                     for px in row.iter_mut() {
-                        px.0 += (i as i32 + 1) << 20;
+                        px.0 = px.0.wrapping_add((i as i32 + 1).wrapping_shl(20));
                     }
                 }
             }
@@ -312,9 +337,9 @@ fn write_parts<V: ImageViewMut<Pixel = I32>>(v: &mut V, by_height: bool, start: 
         n
     }
     if by_height {
-        v.split_by_height_mut(start, nz(size), nz(parts)).map(|ps| write_all(ps, interleave))
+        v.split_by_height_mut(start, nz(size), nz(parts)).map(|ps| write_all(ps, interleave, true))
     } else {
-        v.split_by_width_mut(start, nz(size), nz(parts)).map(|ps| write_all(ps, interleave))
+        v.split_by_width_mut(start, nz(size), nz(parts)).map(|ps| write_all(ps, interleave, false))
     }
 }
 
@@ -363,18 +388,122 @@ fn with_mut_view<R>(c: &SCase, par: &mut Parent, f: impl FnOnce(&mut dyn MutSpli
 
 /// object-safe access to the generic mutable split writer
 trait MutSplit {
-    fn go(&mut self, by_height: bool, start: u32, size: u32, parts: u32, interleave: bool) -> Option<usize>;
+    fn go(&mut self, by_height: bool, start: u32, size: u32, parts: u32, interleave: bool) -> Option<Vec<u32>>;
 }
 impl<V: ImageViewMut<Pixel = I32>> MutSplit for V {
-    fn go(&mut self, by_height: bool, start: u32, size: u32, parts: u32, interleave: bool) -> Option<usize> {
+    fn go(&mut self, by_height: bool, start: u32, size: u32, parts: u32, interleave: bool) -> Option<Vec<u32>> {
         write_parts(self, by_height, start, size, parts, interleave)
     }
 }
-fn write_parts_dyn(v: &mut dyn MutSplit, by_height: bool, start: u32, size: u32, parts: u32, interleave: bool) -> Option<usize> {
+fn write_parts_dyn(v: &mut dyn MutSplit, by_height: bool, start: u32, size: u32, parts: u32, interleave: bool) -> Option<Vec<u32>> {
     v.go(by_height, start, size, parts, interleave)
 }
 
+/// Long thin views: band and part counts where `extent * parts` no longer fits 32 bits.
+fn run_long(ctx: &mut Ctx) {
+    const NS: [u32; 4] = [65_535, 65_536, 70_000, 100_000];
+    let mut cases = Vec::new();
+    for kind in [0u8, 2, 3, 5] {
+        for n in NS {
+            for by_height in [false, true] {
+                cases.push((kind, n, by_height));
+            }
+        }
+    }
+    let total = cases.len() as u64;
+    ctx.drive(
+        total,
+        |_, idx| Some(cases[idx as usize]),
+        |c| json!({"view": KINDS[c.0 as usize], "size": if c.2 { [1, c.1] } else { [c.1, 1] }, "split": if c.2 { "by height" } else { "by width" }}),
+        |&(kind, n, by_height), stats, viols| {
+            stats.nontrivial(&json!([kind, n, by_height]));
+            let (w, h) = if by_height { (1, n) } else { (n, 1) };
+            let m = if kind >= 3 { [1, 1, 1, 1] } else { [0, 0, 0, 0] };
+            let c = SCase { kind, w, h, m };
+            let mut t = Tally { stats, viols, ctx: format!("{} {}x{}", KINDS[kind as usize].replace(' ', ""), w, h) };
+            let plist: Vec<u32> = vec![1, 2, 3, 7, n / 2, 65_535, 65_536.min(n), 65_537.min(n), n - 1, n];
+            for (start, size) in [(0u32, n), (5, n - 7)] {
+                for &parts in &plist {
+                    if parts == 0 || parts > size {
+                        continue;
+                    }
+                    let (par, x0, y0) = build_parent(&c);
+                    let (pw, ph) = (par.pw, par.ph);
+                    macro_rules! go {
+                        ($v:expr) => {{
+                            let v = $v;
+                            if by_height {
+                                let res = v.split_by_height(start, nz(size), nz(parts));
+                                check_split_result!(res, true, x0, y0, w, h, start, size, parts, &mut t, |_part, _px, _py, _pw, _ph| ());
+                            } else {
+                                let res = v.split_by_width(start, nz(size), nz(parts));
+                                check_split_result!(res, false, x0, y0, w, h, start, size, parts, &mut t, |_part, _px, _py, _pw, _ph| ());
+                            }
+                        }};
+                    }
+                    match kind {
+                        0 => go!(TypedImage::<I32>::from_pixels(pw, ph, par.buf.clone()).unwrap()),
+                        2 => go!(TypedImageRef::<I32>::new(pw, ph, &par.buf).unwrap()),
+                        3 => {
+                            let p = TypedImageRef::<I32>::new(pw, ph, &par.buf).unwrap();
+                            go!(TypedCroppedImage::from_ref(&p, x0, y0, w, h).unwrap())
+                        }
+                        _ => {
+                            let mut b = par.buf.clone();
+                            let mut p = TypedImage::<I32>::from_pixels_slice(pw, ph, &mut b).unwrap();
+                            go!(TypedCroppedImageMut::from_ref(&mut p, x0, y0, w, h).unwrap())
+                        }
+                    }
+                    t.stats.count("long_splits", 1);
+                    // mutable variant: write through the parts, read back through the parent
+                    if kind == 0 || kind == 5 {
+                        let (mut par, x0, y0) = build_parent(&c);
+                        let got = with_mut_view(&c, &mut par, |v| write_parts_dyn(v, by_height, start, size, parts, false));
+                        match got {
+                            None => t.fail("unexpected_none", format!("mutable split(start={}, size={}, parts={}) of extent {} returned None", start, size, parts, n)),
+                            Some(sizes) => {
+                                if sizes.len() != parts as usize {
+                                    t.fail("part_count", format!("{} mutable parts returned, {} requested", sizes.len(), parts));
+                                } else if let Err(m) = balanced(&sizes, size, parts) {
+                                    t.fail("part_size", m);
+                                } else {
+                                    // owner of each band offset
+                                    let mut owner = vec![0i32; size as usize];
+                                    let mut off = 0usize;
+                                    for (i, s) in sizes.iter().enumerate() {
+                                        for o in owner[off..off + *s as usize].iter_mut() {
+                                            *o = i as i32 + 1;
+                                        }
+                                        off += *s as usize;
+                                    }
+                                    'scan: for py in 0..par.ph {
+                                        for px in 0..par.pw {
+                                            let val = par.buf[(py * par.pw + px) as usize].0;
+                                            let in_view = px >= x0 && px < x0 + w && py >= y0 && py < y0 + h;
+                                            let along = if by_height { py.wrapping_sub(y0) } else { px.wrapping_sub(x0) };
+                                            // (index+1) << 20 overflows i32 for many parts: compare modulo 2^32
+                                            let expect = if in_view && along >= start && along < start + size { tag(px, py).wrapping_add(owner[(along - start) as usize].wrapping_shl(20)) } else { tag(px, py) };
+                                            if val != expect {
+                                                t.fail("not_exactly_once", format!("mutable split(start={}, size={}, parts={}): parent pixel ({},{}) = {:#x}, expected {:#x}", start, size, parts, px, py, val, expect));
+                                                break 'scan;
+                                            }
+                                        }
+                                    }
+                                    t.stats.count("pixels_read_back_through_parent", (par.pw * par.ph) as u64);
+                                }
+                            }
+                        }
+                    }
+                }
+            }
+        },
+    );
+}
+
 pub fn run(ctx: &mut Ctx) {
+    if ctx.sub == "long" {
+        return run_long(ctx);
+    }
     // exhaustive over view sizes 0..=max x 0..=max, all kinds, all placements from a small margin set
     let max: u32 = if ctx.is_miri { 3 } else if ctx.quick() { 12 } else { 28 };
     let margins: Vec<[u32; 4]> = vec![[0, 0, 0, 0], [1, 2, 3, 1], [2, 0, 0, 3]];
